@@ -69,24 +69,24 @@ CHECKS.update({
 
 # additions made after the seeded-change rounds (appended to the level text above)
 EXTRA = {
- "C01": "Also --threads {unset,1,2,4,7}, BCF dictionaries with GT above index 127 or without IDX attributes, lone-dot genotypes, duplicate positions, non-ASCII sample names, input files under customary / neutral / contradicting names, and four-population spectra of 5 103..6 561 cells.",
+ "C01": "Also --threads {unset,1,2,4,7}, BCF dictionaries with GT above index 127 or without IDX attributes, lone-dot genotypes, duplicate positions, non-ASCII sample names, input files under customary / neutral / contradicting names, and four-population spectra of 5 103..6 561 cells. Populations of 100..330 samples whose per-record ALT and called counts pass 127, 255, 256 (one-byte tallies). Contigs named exactly X, Y, MT, chrX, chrM, W, Z.",
  "C02": "Precisions up to 40 (and 100) with the decimal count checked. Large cohorts include rare-variant records (1..5 minor alleles, or nearly fixed) and tiny targets (1..6 chromosomes); a long-stream part (16..34 samples, 300..1400 records with ever-changing called/ALT pairs, targets 1..10) compares every cell with the model.",
  "C03": "Large one-axis cases are sparse or dense (every source row in one projection, target n/4..n); spectra of 4 160..8 910 cells in 2..4 axes; the laws are repeated on the normalised (Sfs) type-state.",
  "C04": "Shapes whose rows pass 4096/8192 elements; genome-scale fractional totals; duplicates at every list position, for -m and -M alike; the normalised (Sfs) type-state.",
- "C05": "Spectra of 4 097..8 910 entries; each spectrum folded again on the normalised (Sfs) type-state and with NaN / +-inf entries, which must propagate and never be replaced by the fill.",
- "C06": "Estimator formulas also for 511..513, 1023..1025, 4096/4097 and up to 5000 chromosomes.",
+ "C05": "Spectra of 4 097..8 910 entries; each spectrum folded again on the normalised (Sfs) type-state and with NaN / +-inf entries, which must propagate and never be replaced by the fill. One Folded unfolded seven times with changing fills, and a clone of it made midway.",
+ "C06": "Estimator formulas also for 511..513, 1023..1025, 4096/4097 and up to 5000 chromosomes. Several statistics in one invocation with a frequency-based one before, between and behind the scale-dependent ones, each value against its definition.",
  "C07": "Precisions 18..60, 100, 330, 400 with values down to 1e-40 and small values with a full mantissa; signed zeros in the text-npy-text relation; intermediate files and fifos named with a matching, neutral, contradicting or no extension.",
- "C08": "Every string of ploidy <= 2 again in records whose ALT column lists 0 or 1 alleles (fewer than the genotype refers to). The lone '.' is classified as missing in both containers (no leniency any more). A non-diploid genotype must fail the run also under -p, --project-shape, a projection of its own population to zero, and --strict -q.",
- "C09": "The samples file also without final newline, with CRLF, and read from a pipe (-S /dev/stdin); the ghost sample also together with a projection or --strict -q.",
+ "C08": "Every string of ploidy <= 2 again in records whose ALT column lists 0 or 1 alleles (fewer than the genotype refers to). The lone '.' is classified as missing in both containers (no leniency any more). A non-diploid genotype must fail the run also under -p, --project-shape, a projection of its own population to zero, and --strict -q. Contigs named exactly X, Y, MT, chrX, chrM and the like: a contig's name never changes how a genotype is classified.",
+ "C09": "The samples file also without final newline, with CRLF, and read from a pipe (-S /dev/stdin); the ghost sample also together with a projection or --strict -q. The library's empty in-memory list (Samples::List(vec![])), with and without a projection, is an error.",
  "C10": "Empty lines in VCF text and a ploidy fault next to a missing genotype in the same record are faults too. Truncated BGZF files with record-aligned blocks (cut inside a block payload, 1 and 4 threads) and raw BCF cut from one byte into a record must fail. The strict run at every log verbosity (-v..-vvv, -q, -qq); under --strict a skippable record before any kind of fault (ploidy, malformed line, truncated stream) must be the one named.",
- "C11": "Streams of 1 025..20 000 records through the binary; cohorts of 86..700 samples (tables that grow with the chromosome count) under split / permutation / reversal.",
- "C12": "Also a pipe named by path (/dev/stdin) and a named pipe (mkfifo), BCF dictionaries with GT above index 127, one further option per case (projection printed with 17 decimals, --strict, -vv, -q); gzip header fields (MTIME, XFL, OS) as htslib writes them or not.",
+ "C11": "Streams of 1 025..20 000 records through the binary; cohorts of 86..700 samples (tables that grow with the chromosome count) under split / permutation / reversal. Histories over 5..8 populations (per-population state packed into machine words or fixed-size tables).",
+ "C12": "Also a pipe named by path (/dev/stdin) and a named pipe (mkfifo), BCF dictionaries with GT above index 127, one further option per case (projection printed with 17 decimals, --strict, -vv, -q); gzip header fields (MTIME, XFL, OS) as htslib writes them or not. The library reader with format and/or compression named truthfully by the caller instead of detected gives the same result for all four containers.",
  "C13": "One case in twelve has 4 097..8 200 entries.",
  "C14": "Spectra of 4 098..8 910 entries; through the CLI also the input scaled by 2^-70 and folded at --precision 60 (scale-free statistics); scale factors that bring the total to 1 or just beside it; f2/f3/f4 of 1e-7..1e-10 of either sign printed at --precision 20 against the library.",
- "C15": "Reader: files of 511..8 193 values (data sections around 512 B..64 KiB) with every value compared; writer through `-o` onto an existing longer file and on 21 800..21 830 axes (headers at the edge of the NPY 1.0 limit); reader also through buffered readers whose buffer ends inside a value.",
- "C16": "Files whose data section is a whole multiple of 512 B..128 KiB; damaged files under names ending .npy/.sfs/.txt/.bin/none; `-O npy`, `-O text`, `-o FILE` variants (the -o file must not hold a spectrum either); extensions by the beginning or the whole of a second npy file; on stdin also in two writes split where the valid file ends.",
- "C17": "Every tuple of <= 3 declared axis lengths over {0,1,2,3,2^32,2^63,2^64-1} (text) and {0,1,2,2^32,2^64-1} (npy); npy shape () with 0/1/3 values; 5 000..40 000 axes of length 1; every statistic family on them; 20..70 one-sample populations; hostile IDX attributes in BCF headers; reserved bit patterns in FORMAT fields; (thorough) 150 000 axes; every order of the pieces of a text header; shapes sweeping every residue of the npy header length.",
- "C18": "Each fault once persistent and once transient (a single failing call, later calls succeed), call-set faults also with error kinds UnexpectedEof and BrokenPipe and at every BCF record start and BGZF block start; EPIPE and ENOSPC on the binary's stdout, and a file-size limit that makes a write fail in the middle or in the last block of the output.",
+ "C15": "Reader: files of 511..8 193 values (data sections around 512 B..64 KiB) with every value compared; writer through `-o` onto an existing longer file and on 21 800..21 830 axes (headers at the edge of the NPY 1.0 limit); reader also through buffered readers whose buffer ends inside a value. Through the binary: files of every dtype and byte order, header padded to 64 or 16, whose data section begins and ends with a blank, line-end, '#' or 0x00/0xff byte.",
+ "C16": "Files whose data section is a whole multiple of 512 B..128 KiB; damaged files under names ending .npy/.sfs/.txt/.bin/none; `-O npy`, `-O text`, `-o FILE` variants (the -o file must not hold a spectrum either); extensions by the beginning or the whole of a second npy file; on stdin also in two writes split where the valid file ends. Valid files with a header padded to 16 only whose data begin with 0..20 blank bytes (what header padding is made of), under every truncation and extension.",
+ "C17": "Every tuple of <= 3 declared axis lengths over {0,1,2,3,2^32,2^63,2^64-1} (text) and {0,1,2,2^32,2^64-1} (npy); npy shape () with 0/1/3 values; 5 000..40 000 axes of length 1; every statistic family on them; 20..70 one-sample populations; hostile IDX attributes in BCF headers; reserved bit patterns in FORMAT fields; (thorough) 150 000 axes; every order of the pieces of a text header; shapes sweeping every residue of the npy header length. Valid small spectra of every shape over lengths {1,2,3,9} (9/1, 1/9, 3/3/1, ...) through every command and statistic.",
+ "C18": "Each fault once persistent and once transient (a single failing call, later calls succeed), call-set faults also with error kinds UnexpectedEof and BrokenPipe and at every BCF record start and BGZF block start; EPIPE and ENOSPC on the binary's stdout, and a file-size limit that makes a write fail in the middle or in the last block of the output. First-chunk lengths again with format and/or compression named by the caller (set_format, set_compression_method).",
  "C19": "Arrays of 1 025..8 193 elements; all 220 shapes with a zero-length axis among <= 4 axes of length 0..3; iterators over axes that do not exist; sums on signed fills (all negative, mixed with zeros, sign by position).",
 }
 
